@@ -286,6 +286,10 @@ func TestVerifC02(t *testing.T) {
 		for s, n := range res.MapSites {
 			sitesTouched[s] += n
 		}
+		if i < nCollision && strings.Contains(ident, "could not parse as YAML") {
+			// a collision input that is not YAML reaches no rule at all
+			r.HarnessError("collision input %s is not valid YAML: %s", in.Name, vTrunc(ident, 300))
+		}
 		samePos := false
 		seen := map[string]bool{}
 		for _, l := range strings.Split(ident, "\n") {
